@@ -45,6 +45,13 @@ def cases(tier, seed):
                 continue
             for kind in ("poly", "poly-slow"):
                 yield {"nf": nf, "deg": deg, "io": io, "bias": bias, "kind": kind, "rows": rows}
+    # numbers of input columns at the limits of the small integer dtypes (index tables): 127/128/129, 255/256/257 at degree 2,
+    # 65535/65536/65537 at degree 1
+    for kind in ("poly", "poly-slow"):
+        for nf in (127, 128, 129, 255, 256, 257):
+            yield {"wide": True, "nf": nf, "deg": 2, "io": nf % 2 == 0, "bias": nf % 3 == 0, "kind": kind}
+        for nf in (65535, 65536, 65537):
+            yield {"wide": True, "nf": nf, "deg": 1, "io": False, "bias": True, "kind": kind}
     # a wide case: lexicographic feature-name order (x10 < x2) must not change the monomial
     for kind in ("poly", "poly-slow"):
         yield {"nf": 12, "deg": 2, "io": False, "bias": True, "kind": kind}
@@ -79,6 +86,32 @@ def _run_tall(case):
         except Exception as e:
             viol.append({"sig": "ExtendedFeatures|raises %s|%s" % (type(e).__name__, cond), "msg": "%s %r" % (str(e)[:200], case)})
     return {"viol": viol[:2], "nontrivial": True, "states": 2, "transitions": 2 * rows, "outcome": ("tall", exp.shape)}
+
+
+def _run_wide(case):
+    import numpy
+    from sklearn.preprocessing import PolynomialFeatures
+    from mlinsights.mlmodel import ExtendedFeatures
+    nf, deg, io, bias, kind = case["nf"], case["deg"], case["io"], case["bias"], case["kind"]
+    viol = []
+    cond = "kind=%s,interaction_only=%s,%d input columns" % (kind, io, nf)
+    X = numpy.array([[float((i * 7 + j * 3) % 11 + 1) for j in range(nf)] for i in range(3)])
+    X[1, -1] = 13.0
+    X[2, 0] = 17.0
+    try:
+        ref = PolynomialFeatures(degree=deg, interaction_only=io, include_bias=bias).fit(X)
+        exp = ref.transform(X)
+        ext = ExtendedFeatures(kind=kind, poly_degree=deg, poly_interaction_only=io, poly_include_bias=bias).fit(X)
+        got = numpy.asarray(ext.transform(X))
+        if ext.n_output_features_ != exp.shape[1] or got.shape != exp.shape:
+            viol.append({"sig": "ExtendedFeatures|shape|" + cond, "msg": "%r vs %r" % (got.shape, exp.shape)})
+        elif not numpy.array_equal(got, exp):
+            j = int(numpy.argwhere(got != exp)[0][1])
+            viol.append({"sig": "ExtendedFeatures|column differs|" + cond, "msg": "first differing column %d (monomial %r) %r" % (
+                j, [int(q) for q in numpy.nonzero(ref.powers_[j])[0]], case)})
+    except Exception as e:
+        viol.append({"sig": "ExtendedFeatures|raises %s|%s" % (type(e).__name__, cond), "msg": "%s %r" % (str(e)[:200], case)})
+    return {"viol": viol, "nontrivial": True, "states": 1, "transitions": 3, "outcome": ("wide", nf, deg)}
 
 
 def _parse_name(name, feats):
@@ -140,6 +173,8 @@ def run_case(case):
         return _run_hist(case)
     if case.get("rows"):
         return _run_tall(case)
+    if case.get("wide"):
+        return _run_wide(case)
 
     nf, deg, io, bias, kind = case["nf"], case["deg"], case["io"], case["bias"], case["kind"]
     viol = []
